@@ -4,8 +4,8 @@ import PyaModel.Spec.Total
 /-! Line protocol driver for C12.
 
 `A <aexpr>`                    annotation expression (s-expression, see `toAExpr`)
-    → `res=<ok | raise:Kind> D=<unsupportedAnnotNode | ->`        (`annVisit liveSup`; the class is relative to the
-      *pinned* table, so a `visit_` method that disappears is a new failure and one that is added is not)
+    → `res=<kinds reported as unsupported, in order | -> old=<ok | raise:Kind>`   (`annVisit liveSup`: the visitor since fix
+      9c1e869; `oldAnnVisit liveSup`: the visitor before it)
 `E|<fname>|<off>|<lines>|<calls>`
     off   : comma-separated disabled codes or `-`
     lines : space-separated source lines, each dot-separated decimal code points (`-` = empty line)
@@ -99,8 +99,9 @@ def handleVal (line : String) : String :=
   | some [.atom "A", e] =>
     match toAExpr e with
     | some e =>
-      let r := match annVisit liveSup e with | .ok _ => "ok" | .raise k => s!"raise:{k}"
-      s!"res={r} D={if D12_unsupportedAnnotNode pinnedSup e then "unsupportedAnnotNode" else "-"}"
+      let errs := (annVisit liveSup e).1
+      let old := match oldAnnVisit liveSup e with | .ok _ => "ok" | .raise k => s!"raise:{k}"
+      s!"res={if errs.isEmpty then "-" else ",".intercalate errs} old={old}"
     | none => "bad-op"
   | some [.atom "ca", .atom x, e, a] =>
     match e.toTy, a.toTy with
